@@ -1,5 +1,30 @@
-(** C05 -- placeholder while the proofs are built *)
-From RL Require Import Model.Decode.
-Theorem C05_placeholder : m_decode strict_opts [] = Val (Err [IncompleteFlags], []).
-Proof. reflexivity. Qed.
-Print Assumptions C05_placeholder.
+(** C05 -- The decoder accepts exactly the specified language with the specified
+    values.  [s_decode] / [s_avps] (Spec/SpecDecode.v) is the independent
+    executable specification: positional fields, the crate's flag-bit numbering,
+    the 39 payload formats as a table of shapes, UTF-8 and enumerated-code
+    constraints; no reader, no guards-then-unchecked-reads, no failure outcome.
+    The equality is on complete results: the accepted value and the remaining
+    input, or the full error list. *)
+From RL Require Import Model.Decode Spec.SpecDecode Proofs.RefineAvp Proofs.RefineDecode.
+
+Theorem C05_decode_refines_spec : forall o b, bytes_ok b = true ->
+  exists x, m_decode o b = Val x /\ obs_of x = s_decode o b.
+Proof. exact decode_refines. Qed.
+
+Theorem C05_avps_refine_spec : forall b, bytes_ok b = true -> m_avps b = Val (s_avps b).
+Proof. exact avps_refines. Qed.
+
+Theorem C05_payload_refines_spec : forall t p,
+  exists rest, m_decode_avp t p = Val (s_payload t p, rest).
+Proof. exact decode_avp_refines. Qed.
+
+(** non-vacuity: a control message with reserved AVP bits set, M clear and surplus payload octets is accepted *)
+Example C05_noncanonical_accepted :
+  s_decode strict_opts [19;32;0;23; 0;1;0;2;0;3;0;4; 60;11;0;0;0;0;0;1;9;9;9] =
+  Ok (Control {| c_length := 23; c_tunnel := 1; c_session := 2; c_ns := 3; c_nr := 4;
+                 c_avps := [AMessageType StartControlConnectionRequest] |}, []).
+Proof. vm_compute. reflexivity. Qed.
+
+Print Assumptions C05_decode_refines_spec.
+Print Assumptions C05_avps_refine_spec.
+Print Assumptions C05_payload_refines_spec.
